@@ -66,7 +66,8 @@ def run_job(job):
             if shape in ("big", "wide") and inner == "line_count":
                 inner = "size"
             where = rng.choice(WHERES)
-            if inner == "line_count":
+            allow_empty = rng.random() < 0.3
+            if inner == "line_count" and not allow_empty:
                 where = "is_file" if where is None else "is_file and (%s)" % where
             wtxt = (" where " + where) if where else ""
             if job.get("subsets"):
@@ -77,6 +78,8 @@ def run_job(job):
             frm = "t"
             if inner in ("size", "length(name)", "size + 1", "length(ext)") and os.path.isdir(os.path.join(root, "zz")) and rng.random() < 0.4:
                 frm = rng.choice(["t archives", "t/zz archives, t maxdepth 1", "t dfs archives"])
+            elif allow_empty and inner in ("hardlinks", "uid") and os.path.isdir(os.path.join(root, "zz")):
+                frm = "t archives"          # zip members have no such attribute: empty cells among the rows
             elif rng.random() < 0.15:
                 frm = rng.choice(["t maxdepth 1, t mindepth 2", "t dfs", "t mindepth 2"])
             res.cover("from_clauses", frm)
@@ -89,8 +92,10 @@ def run_job(job):
                     res.inc("watchdog: %s on `%s`" % (r0.verdict, q0))
                 continue
             cells = r0.rows()
+            n_rows = len(cells)
+            n_empty = sum(1 for c in cells if c == "")
             try:
-                values = [int(float(c)) if "." in c else int(c) for c in cells]
+                values = [int(float(c)) if "." in c else int(c) for c in cells if c != ""]
             except ValueError:
                 res.inc("non-integer cell in the row query %r" % cells[:3])
                 continue
@@ -119,6 +124,24 @@ def run_job(job):
             float_ok = abs(sum(values)) < 2 ** 53
             for fn, col, cell in zip(fns, cols, out):
                 cell = cell.decode()
+                if n_empty:
+                    # entries without a value in the column (a directory's line_count, a zip member's uid): COUNT(*) counts entries,
+                    # SUM adds what there is, AVG is SUM divided by COUNT; the other aggregates are not judged on such a multiset
+                    if fn == "count" and col.endswith("(*)"):
+                        good = cell == str(n_rows)
+                    elif fn == "sum":
+                        good = cell == str(sum(values))
+                    elif fn == "avg" and n_rows:
+                        good = model.agg_matches("avg", cell, sum(values) / n_rows) is not False
+                    else:
+                        res.count("dont_care_cells")
+                        continue
+                    if not good:
+                        res.viol("%s over %d entries, %d of them without a value, printed %r (values present: sum %d)" % (col, n_rows, n_empty, cell, sum(values)), ctx)
+                        bad = True
+                        break
+                    res.count("aggregates_over_rows_with_empty_cells")
+                    continue
                 exp = model.aggregate(fn, values)
                 if fn not in ("count", "sum", "min", "max") and not float_ok:
                     continue
@@ -146,7 +169,7 @@ def run_job(job):
 
 def main(chk):
     quick = chk.tier == "quick"
-    n = 240 if quick else 1000
+    n = 800 if quick else 2000
     jobs = [{"id": "j%d" % i, "seed": job_seed(chk.seed, "C07", i), "queries": 10 if quick else 20} for i in range(n)]
     subsets = []
     if not quick:
